@@ -299,6 +299,26 @@ def run(ctx, res):
     ic = C.run_impl(ctx.bins["c12"], pc, len(lc), timeout=600)
     res.count("L1c_ranges", len(lc))
     for cs, m, a, b in zip(lc, meta, mc, ic):
+        if a != b and m is not None and (m[3] or m[4]) and "range_affixes_dropped" in known and \
+                b == toks_line([m[5][0]] + [retag(m[3] + str(v) + m[4]) for v in ref_range(m[0], m[1], m[2] or 1)] + m[5][2:]):
+            res.extra.setdefault("findings_no_longer_reproducing", []).append("range_affixes_dropped")
+            continue
+        if a != b and m is None and "range_affixes_dropped" in known:
+            tk = parse_toks(cs and C.dec(cs.split("\t")[2]).replace("\x1f", "\x00") and "") or \
+                [(X_TAGS[e[0]], e[1:]) for e in C.dec(cs.split("\t")[2]).split("\x1f")]
+            mm = re.search(r"\{(-?[0-9]+)\.\.(-?[0-9]+)(\.\.)?([0-9]+)?\}", tk[1][1])
+            if mm and (mm.start() > 0 or mm.end() < len(tk[1][1])):
+                x, y, st = int(mm.group(1)), int(mm.group(2)), int(mm.group(4) or 1)
+                if I32MIN <= x <= I32MAX and I32MIN <= y <= I32MAX and st <= I32MAX:
+                    want = [("", "5"), ("", "6")] + [retag(tk[1][1][:mm.start()] + str(v) + tk[1][1][mm.end():]) for v in ref_range(x, y, st)] + [tk[2]]
+                    if b == toks_line(want):
+                        res.extra.setdefault("findings_no_longer_reproducing", []).append("range_affixes_dropped")
+                        continue
+        if a != b and m is None and "range_abort_drops_all" in known:
+            tk = parse_toks(a)
+            if len(tk) == 3 and tk[0] == ("", "{5..6}") and b == toks_line([("", "5"), ("", "6")] + tk[1:]):
+                res.extra.setdefault("findings_no_longer_reproducing", []).append("range_abort_drops_all")
+                continue
         if a != b and m is not None and a == "PANIC" and "range_i32_overflow" in known and not m[3] and not m[4] and \
                 b == toks_line([m[5][0]] + [retag(str(v)) for v in ref_range(m[0], m[1], m[2] or 1)] + m[5][2:]):
             res.extra.setdefault("findings_no_longer_reproducing", []).append("range_i32_overflow")
@@ -413,7 +433,7 @@ def run(ctx, res):
             le.append(C.case("dx", wdx, "30", X.toks_field([("", "echo"), ("", "*.txt"), ("", "$(%s)" % scmd), ('"', "*")])))
             emeta.append((d, None, [("", "echo"), ("", "*.txt"), ("", "$(%s)" % scmd), ('"', "*")], "dxstar"))
             for toks in [[("", "echo"), ("", "~/x"), ("", "$B"), ("", "{a,b}$B"), ("", "*.txt"), ("", "{1..3}"), ("'", "{a,b}*~$B")],
-                         [("", "echo"), ("", "$A"), ("", "x{1..2}"), ('"', "~ $B {a,b} *")],
+                         [("", "echo"), ("", "$A"), ("", "{1..2}"), ('"', "~ $B {a,b} *")],
                          [("", "1"), ("", "+"), ("", "{1,2}")], [("", "export"), ("", "PROMPT=$B{a,b}")]]:
                 le.append(C.case("dx", wdx, "30", X.toks_field(toks)))
                 emeta.append((d, None, toks, "dx"))
@@ -482,6 +502,10 @@ def run(ctx, res):
                 pg = [p]
             exp = toks_line([toks[0]] + [retag(x) for x in pg] + toks[2:])
             res.nontrivial("e:%s:%s" % (os.path.basename(d), p))
+            if differs and b == exp and "hidden_directory_component" in known and \
+                    any(c.startswith(".") and c not in (".", "..") for x in (tbl or []) for c in x.split("/")[:-1]):
+                res.extra.setdefault("findings_no_longer_reproducing", []).append("hidden_directory_component")
+                continue
             if differs and (b == exp or "[" in p or "**" in p):
                 violate(kind="correspondence", layer="L1e", dir=d, input=toks_line(toks), model=a, impl=b,
                         failing_input=False, note="expand_glob of the implementation differs from the model")
